@@ -27,7 +27,7 @@ theorem loadStack_db (w : World) (u : User) (self : Flav) (s : Nat) :
     · exact ⟨rfl, rfl, rfl, rfl, rfl⟩
     · exact saveAll_db _ _ _ _ _
 
-theorem loadFrom_db (u : User) (self : Flav) (ss : List Nat) (m : Spec) (fl : List (List Flav)) (w : World) :
+theorem loadFrom_db (u : User) (self : Flav) (ss : List Nat) (m : Spec) (fl : List (Nat × List Flav)) (w : World) :
     (loadFrom u self ss m fl w).2.2.db = w.db ∧ (loadFrom u self ss m fl w).2.2.dirs = w.dirs ∧
       (loadFrom u self ss m fl w).2.2.nst = w.nst ∧ (loadFrom u self ss m fl w).2.2.touch = w.touch ∧
       (loadFrom u self ss m fl w).2.2.extras = w.extras := by
@@ -35,7 +35,7 @@ theorem loadFrom_db (u : User) (self : Flav) (ss : List Nat) (m : Spec) (fl : Li
   | nil => exact ⟨rfl, rfl, rfl, rfl, rfl⟩
   | cons s ss ih =>
     simp only [loadFrom]
-    obtain ⟨h1, h2, h3, h4, h5⟩ := ih (specUnion m (loadStack w u self s).view) (fl ++ [(loadStack w u self s).flavs])
+    obtain ⟨h1, h2, h3, h4, h5⟩ := ih (specUnion m (loadStack w u self s).view) (fl ++ [(s, (loadStack w u self s).flavs)])
       (loadStack w u self s).w
     obtain ⟨k1, k2, k3, k4, k5⟩ := loadStack_db w u self s
     exact ⟨h1.trans k1, h2.trans k2, h3.trans k3, h4.trans k4, h5.trans k5⟩
@@ -69,29 +69,34 @@ theorem applyDbW_dirs (w : World) (e : Eff) : (applyDbW w e).dirs = w.dirs ∧ (
   · dsimp only
     split <;> exact ⟨rfl, rfl⟩
 
-theorem applySaveW_db (u : User) (w : World) (m m' : Spec) (e : Eff) :
-    (applySaveW u w m m' e).db = w.db ∧ (applySaveW u w m m' e).touch = w.touch := by
+theorem applySaveW_db (u : User) (held : Nat → List Flav) (w : World) (m m' : Spec) (e : Eff) :
+    (applySaveW u held w m m' e).db = w.db ∧ (applySaveW u held w m m' e).touch = w.touch := by
   unfold applySaveW
   split
   · exact ⟨rfl, rfl⟩
   · exact ⟨rfl, rfl⟩
-  · split <;> exact ⟨rfl, rfl⟩
+  · split
+    · exact ⟨rfl, rfl⟩
+    · rename_i s _ _
+      have := saveAll_db u s m' (held s) w
+      exact ⟨this.1, this.2.2.2.1⟩
 
-theorem applyW_db (fixed : Bool) (u : User) (wm : World × Spec) (e : Eff) :
-    (applyW fixed u wm e).1.db = wm.1.db ∨ (applyW fixed u wm e).1.db = applyDb e wm.1.db := by
+theorem applyW_db (fixed : Bool) (u : User) (held : Nat → List Flav) (wm : World × Spec) (e : Eff) :
+    (applyW fixed u held wm e).1.db = wm.1.db ∨ (applyW fixed u held wm e).1.db = applyDb e wm.1.db := by
   unfold applyW
   dsimp only
-  rw [(applySaveW_db _ _ _ _ _).1]
+  rw [(applySaveW_db _ _ _ _ _ _).1]
   exact applyDbW_db _ _
 
 /-- the database after the effects `es` is the replay of a sublist of `es` -/
-theorem foldl_applyW_db (fixed : Bool) (u : User) (es : List Eff) (wm : World × Spec) :
-    ∃ es' : List Eff, es'.Sublist es ∧ (es.foldl (applyW fixed u) wm).1.db = es'.foldl (fun c e => applyDb e c) wm.1.db := by
+theorem foldl_applyW_db (fixed : Bool) (u : User) (held : Nat → List Flav) (es : List Eff) (wm : World × Spec) :
+    ∃ es' : List Eff, es'.Sublist es ∧
+      (es.foldl (applyW fixed u held) wm).1.db = es'.foldl (fun c e => applyDb e c) wm.1.db := by
   induction es generalizing wm with
   | nil => exact ⟨[], List.Sublist.refl _, rfl⟩
   | cons e es ih =>
-    obtain ⟨es', hs, he⟩ := ih (applyW fixed u wm e)
-    rcases applyW_db fixed u wm e with h | h
+    obtain ⟨es', hs, he⟩ := ih (applyW fixed u held wm e)
+    rcases applyW_db fixed u held wm e with h | h
     · exact ⟨es', hs.cons e, by simp only [List.foldl_cons]; rw [he, h]⟩
     · exact ⟨e :: es', hs.cons_cons e, by simp only [List.foldl_cons]; rw [he, h]⟩
 
@@ -111,16 +116,17 @@ theorem cutAfterDb_sublist (es : List Eff) (k : Nat) :
       · simpa using (ih (k + 1)).cons_cons e
 
 /-- the database after a (possibly cut) replay is the replay of a sublist of the effects -/
-theorem replay_db (fixed : Bool) (u : User) (wm : World × Spec) (es : List Eff) (last : Option Eff) :
+theorem replay_db (fixed : Bool) (u : User) (held : Nat → List Flav) (wm : World × Spec) (es : List Eff)
+    (last : Option Eff) :
     ∃ es' : List Eff, es'.Sublist (es ++ last.toList) ∧
-      (replay fixed u wm es last).db = es'.foldl (fun c e => applyDb e c) wm.1.db := by
-  obtain ⟨es', hs, he⟩ := foldl_applyW_db fixed u es wm
+      (replay fixed u held wm es last).db = es'.foldl (fun c e => applyDb e c) wm.1.db := by
+  obtain ⟨es', hs, he⟩ := foldl_applyW_db fixed u held es wm
   unfold replay
   cases last with
   | none => exact ⟨es', by simpa using hs, he⟩
   | some e =>
     dsimp only
-    rcases applyDbW_db (es.foldl (applyW fixed u) wm).1 e with h | h
+    rcases applyDbW_db (es.foldl (applyW fixed u held) wm).1 e with h | h
     · exact ⟨es', (hs.trans (List.sublist_append_left _ _)), by rw [h, he]⟩
     · refine ⟨es' ++ [e], ?_, by rw [h, he]; simp [List.foldl_append]⟩
       simpa using List.Sublist.append hs (List.Sublist.refl [e])
@@ -140,10 +146,10 @@ theorem step_db (fixed : Bool) (w : World) (u : User) (c : Cmd) (crash : Option 
   rw [hdb]
   cases crash with
   | none =>
-    obtain ⟨es', hs, he⟩ := replay_db fixed u (w1, m) (run w.nst c ⟨w.db, m, w1.dirs, [], w1.extras⟩).2.tr none
+    obtain ⟨es', hs, he⟩ := replay_db fixed u (heldOf fl) (w1, m) (run w.nst c ⟨w.db, m, w1.dirs, [], w1.extras⟩).2.tr none
     exact ⟨es', by simpa using hs, by rw [he, hdb]⟩
   | some k =>
-    obtain ⟨es', hs, he⟩ := replay_db fixed u (w1, m) (cutAfterDb (run w.nst c ⟨w.db, m, w1.dirs, [], w1.extras⟩).2.tr k).1
+    obtain ⟨es', hs, he⟩ := replay_db fixed u (heldOf fl) (w1, m) (cutAfterDb (run w.nst c ⟨w.db, m, w1.dirs, [], w1.extras⟩).2.tr k).1
       (cutAfterDb (run w.nst c ⟨w.db, m, w1.dirs, [], w1.extras⟩).2.tr k).2
     exact ⟨es', hs.trans (cutAfterDb_sublist _ _), by rw [he, hdb]⟩
 
